@@ -270,6 +270,25 @@ CLAIMED["C18"] = dict(
     technique="bounded runtime-contract check (round-trip and robustness, exhaustive for short strings) + discharged contracts on the token-level value parser",
 )
 
+CLAIMED["C06"] = dict(
+    category="exploration",
+    text="Bounded: real Printer -> text -> real Parser, oracle = equal value of the same class AND identical bit patterns of every float payload. "
+         "EXHAUSTIVE over every bit pattern of f16 and bf16 FloatAttr (2 x 65536) and over every byte string of length <= 2 through "
+         "print_bytes_literal / StringLiteral.bytes_contents (all adjacent byte pairs); boundary + seeded patterns for f32/f64 (all exponents x 5 "
+         "mantissas, subnormals, signed zeros, infinities, NaN payloads); IntegerAttr widths 1..128 x 3 signednesses at the range boundaries; "
+         "seeded strings/bytes over hostile alphabets (non-ASCII, quotes, control characters); seeded structured values of depth <= 2: dense "
+         "elements (splats, signed zeros, NaN/inf elements, empty, i1), dense arrays, arrays, dictionaries, symbol references, locations, affine "
+         "maps, tensor/memref/vector/complex/tuple/function types. Discharged kernels (pyvc + z3): Printer.print_bytes_literal encodes each "
+         "byte independently by the three-way rule for byte strings of any length; IntegerType.normalized_value is a canonical function of the "
+         "bit pattern (widths 1..128). Exploration is the honest level: float<->decimal conversion and the recursive printers/parsers are not "
+         "within reach of the SMT-backed generator.",
+    note="Four defects repaired (hex float elements in dense / dense-array literals, splat detection on signed zeros, UTF-8 string vs bytes lexing). "
+         "Known findings: BytesAttr with a valid-UTF-8 payload and NoneAttr share their syntax with StringAttr / NoneType. Not covered: opaque / "
+         "resource attributes, strided layouts, sparse elements.",
+    design="§4 C06, §9",
+    technique="bounded runtime-contract check of the real printer/parser pair (exhaustive for 16-bit floats and short byte strings) + discharged contracts on the byte-literal encoder and integer normalisation",
+)
+
 NOT_APPLICABLE = {
     "C04": "whole Printer∘Parser composition over every dialect: recursive string programs; no per-function contract within reach of the SMT-backed generator expresses it",
     "C05": "about 80 dialects of hand-written print/parse pairs and a format-string interpreter; same obstacle as C04",
@@ -283,7 +302,7 @@ NOT_APPLICABLE = {
     "C28": "result preservation of an e-graph pipeline: whole-program statement with no per-function postcondition implying it",
 }
 
-NOT_REACHED = ["C06"]
+NOT_REACHED = []
 
 
 def main():
